@@ -183,6 +183,8 @@ AUDITED_NO_PROGRESS = {
 
 
 def run(ctx):
+    from .C15 import every_context_refreshed
+    every_context_refreshed(ctx)          # a second advance after erase() skips a context (stale statistics) or steps past end()
     borrowed_fd_not_consumed(ctx)
     # locals / parameters the rules below refer to by name (a rename makes the analysis 'broken', never a violation)
     ctx.anchor(ctx.fn1('Oomd::Fs::readDirFromDIR'), 'flags')
